@@ -4,7 +4,14 @@ Streams
   match      helpers.match vs Model.Match.pmatch  (exhaustive small strings + random unicode)
   filter     completion.filter_names + the sort of Completion.complete driven with synthetic
              Name objects vs Model.Completion.completePython
-  e2e        Script.complete on generated programs: the candidate names jedi collected are
+  foldsrc    the same on names that collide under a case mapping (straße/strasse, İlk/i̇lk, ...) vs
+             Model.Completion.completePythonSrc: folding methods + position of the length measurement
+             as the translator read them from filter_names
+  foldmap    Model.Completion.expand/unitOn (code-point-wise case mapping) vs str.lower/casefold/upper;
+             str.lower is unit-width on every code point but U+0130 (checked over all code points)
+  e2e        Script.complete on generated programs (ASCII programs + programs whose scopes hold
+             families of identifiers that collide under lower/casefold/upper, fragments stopping
+             around the special code point): the candidate names jedi collected are
              captured (wrapper around completion.filter_names), the model is run on them and
              must reproduce the API-visible list (name, complete, name_with_symbols, prefix length)
   oracle     the property itself evaluated on Script.complete output (fragment recomputed from
@@ -12,6 +19,7 @@ Streams
 """
 import itertools
 import re
+import unicodedata
 
 import common
 from common import short
@@ -22,10 +30,15 @@ MANIFEST = dict(
          'classes.Completion: fuzzy<->subsequence, start<->prefix, every completion matches the (case-folded) '
          'fragment, complete is the missing suffix, prefix length = fragment length, first prefix_length characters '
          'equal the fragment up to case (under CharwiseLower, with a kernel-checked counter-witness for the '
-         'unrestricted statement), no duplicate (name, complete), nothing matching is lost, sortedness, and '
+         'unrestricted statement; and for any code-point-wise mapping that may expand a code point - casefold: '
+         'prefix_is_fragment_unit_partial / accepted_text_spells_name_partial under "no expanding code point in '
+         'the fragment and in the first |fragment| characters of the name", both hypotheses forced by kernel-checked '
+         'witnesses straß/strasse, stras/straße; source_fold_shape: the translator-read folding statements of '
+         'filter_names are lower/lower/length-first, source_filter_is_filterNames), no duplicate (name, complete), nothing matching is lost, sortedness, and '
          '"the key tuple found in the source orders exactly as documented" stated over the translator-extracted '
          'component list. Tie: translator + correspondence (unit level exhaustive on small strings, synthetic-name '
-         'stream, end-to-end stream on the candidates jedi collected). Attribute completeness: theorem '
+         'stream, foldsrc/foldmap streams on names colliding under a case mapping, end-to-end stream on the candidates '
+         'jedi collected, incl. programs with such identifier families). Attribute completeness: theorem '
          'attrs_complete_partial over the PyCore fragment (every attribute the run can read from an instance/class is '
          'among complNames, the transcription of the filters complete_trailer uses; tie: jedi completions after `obj.` = '
          'complNames on generated PyCore programs); beyond the fragment (multiple inheritance) it is decided by '
@@ -112,7 +125,10 @@ def stream_match(ctx, reqs):
 # ----------------------------------------------------------------- stream: filter
 
 POOL = ['foo', 'Foo', 'FOO', 'fob', '_foo', '__foo', '__foo__', 'foo_bar', 'bar', 'Bar', '_', 'f',
-        'İx', 'ǅa', 'éa', 'Éa', 'fo', 'ofo']
+        'İx', 'ǅa', 'éa', 'Éa', 'fo', 'ofo',
+        # pairs that collide under one of CPython's case mappings but not character by character
+        # (lower / casefold / upper disagree or change the length)
+        'straße', 'strasse', 'Maß', 'mass', 'i\u0307x', 'ix', 'ŉa', 'ʼna', 'ǰa', 'λος', 'λοσ', 'ΛΟΣ']
 
 
 def run_filter_impl(names, like, fuzzy, imported, ci, bracket):
@@ -168,6 +184,79 @@ def stream_filter(ctx, reqs):
                'ci': ci, 'bracket': bracket, 'lower': lower_table(strings)}
         reqs.append(req)
         cases.append((('filter', req), impl))
+    return cases
+
+
+# ----------------------------------------------------------------- streams: foldsrc, foldmap
+
+FOLD_POOL = ['straße', 'strasse', 'STRASSE', 'Straße', 'maß', 'mass', 'masse', 'Maß', 'İlk', 'i\u0307lk', 'ilk',
+             'ılk', 'ŉa', 'ʼna', 'ǰa', 'j\u030ca', 'ﬁn', 'fin', 'λος', 'λοσ', 'ΛΟΣ', 'ǆa', 'ǅa', 'Ǆa', 'stra', '_straße',
+             '__strasse', 'ẞa', 'ssa']
+
+
+def fold_tables(strings):
+    strings = sorted(set(strings))
+    return {m: [[x, getattr(x, m)()] for x in strings] for m in ('lower', 'casefold', 'upper')}
+
+
+def stream_foldsrc(ctx, reqs):
+    """filter_names + sort on names that collide under a case mapping, vs Model.Completion.
+    completePythonSrc (folding methods and statement order as the translator read them)"""
+    rng = ctx.subrng('foldsrc')
+    cases = []
+    for i in range(ctx.size(600, 12000)):
+        names = []
+        for _ in range(rng.randint(1, 6)):
+            x = rng.choice(FOLD_POOL)
+            pub = x + '=' if rng.random() < 0.15 else x
+            names.append(FakeName(x, pub, api_type=rng.choice(['function', 'statement']),
+                                  is_del=rng.random() < 0.05))
+        base = rng.choice(FOLD_POOL)
+        like = base[:rng.randint(0, len(base))]
+        r = rng.random()
+        like = like.upper() if r < 0.15 else like.casefold() if r < 0.3 else like.swapcase() if r < 0.4 else like
+        fuzzy = rng.random() < 0.3
+        imported = [rng.choice(FOLD_POOL)] if rng.random() < 0.2 else []
+        ci = rng.random() < 0.9
+        bracket = rng.random() < 0.2
+        try:
+            impl = run_filter_impl(names, like, fuzzy, imported, ci, bracket)
+        except Exception as e:
+            impl = ['EXC', type(e).__name__]
+        cands = [{'str': nm.string_name, 'pub': nm._public, 'func': nm.api_type == 'function',
+                  'del': bool(nm.tree_name and nm.tree_name._d)} for nm in names]
+        strings = [like] + [nm.string_name for nm in names] + [nm._public for nm in names]
+        req = {'op': 'complete_src', 'cands': cands, 'like': like, 'fuzzy': fuzzy, 'imported': imported,
+               'ci': ci, 'bracket': bracket}
+        req.update(fold_tables(strings))
+        reqs.append(req)
+        cases.append((('foldsrc', req), impl))
+    return cases
+
+
+def stream_foldmap(ctx, reqs):
+    """Model.Completion.expand / unitOn (a case mapping applied code point by code point) vs the real
+    str.lower / str.casefold / str.upper. Capital sigma is left out for lower(): its lower-casing
+    depends on the position in the word."""
+    rng = ctx.subrng('foldmap')
+    alphabet = list('aAzZsS_ßẞİıiI\u0307ŉǰﬁǆǅǄéÉσςΣ')
+    cases = []
+    for i in range(ctx.size(400, 6000)):
+        m = rng.choice(['lower', 'casefold', 'upper'])
+        x = ''.join(rng.choice(alphabet) for _ in range(rng.randint(0, 7)))
+        if m == 'lower':
+            x = x.replace('Σ', 'σ')
+        table = [[ch, getattr(ch, m)()] for ch in sorted(set(x))]
+        impl = {'out': getattr(x, m)(), 'unit': len(getattr(x, m)()) == len(x) and all(len(getattr(ch, m)()) == 1 for ch in x)}
+        reqs.append({'op': 'expand', 'table': table, 's': x})
+        cases.append((('foldmap', m, x), impl))
+    # the fact about CPython that source_fold_shape rests on: str.lower maps every code point but
+    # U+0130 to one code point (casefold and upper do not)
+    wide = [hex(c) for c in range(0x110000) if len(chr(c).lower()) != 1]
+    ctx.count('foldmap', ('lower-unit-width',), nontrivial=True, bucket='all code points',
+              sample={'code points whose lower() is not one code point': wide})
+    if wide != ['0x130']:
+        ctx.tie_broken('assumption:str.lower-unit-width', 'code points whose lower() is longer: %r' % wide[:20])
     return cases
 
 
@@ -309,6 +398,107 @@ def gen_program(rng):
     return src, probes, '\n'.join(lines[:ndefs]) + '\n'
 
 
+# identifiers that collide under one of CPython's case mappings although they are different
+# identifiers character by character: (members of one scope, positions worth stopping at are found
+# from the characters whose lower()/casefold()/upper() is not one code point or disagree).
+# All members are valid identifiers and NFKC-stable (the compiler normalises identifiers, jedi does
+# not: not this property's business), so the program can be executed.
+FOLD_FAMILIES = [
+    ['straße', 'strasse', 'strassen', 'stadt'],
+    ['maß', 'mass', 'masse', 'Maß'],
+    ['größe', 'grösse', 'groß', 'gross', 'grosse'],
+    ['fuß', 'fuss', 'FUSS', 'fussel'],
+    ['İlk', 'i\u0307lke', 'ilk', 'ılk'],
+    ['λόγος', 'ΛΌΓΟΣ', 'λόγοσ', 'λόγοσα'],
+    ['ǰazz', 'jazz', 'ǰa'],
+    ['weiß', 'weiss', 'Weiss', 'weisse'],
+]
+
+
+def special_positions(name):
+    return [i for i, ch in enumerate(name)
+            if len({ch.lower(), ch.casefold(), ch.upper().lower()}) > 1
+            or any(len(f(ch)) != 1 for f in FOLDS)]
+
+
+def fold_fragments(rng, family):
+    """fragments a user may have typed for a member: stop just before / at / after a character
+    with a non-trivial case mapping, in the spelling of any member, in any case"""
+    out = []
+    for _ in range(4):
+        m = rng.choice(family)
+        pos = special_positions(m)
+        if pos and rng.random() < 0.8:
+            cut = min(len(m), max(0, rng.choice(pos) + rng.choice([0, 1, 1, 2, 2, 3])))
+        else:
+            cut = rng.randint(0, len(m))
+        if cut == 0 and rng.random() < 0.85:
+            cut = rng.randint(1, len(m))
+        frag = m[:cut]
+        r = rng.random()
+        if r < 0.12:
+            frag = frag.upper()
+        elif r < 0.24:
+            frag = frag.lower()
+        elif r < 0.3:
+            frag = frag.casefold()
+        elif r < 0.36:
+            frag = frag.swapcase()
+        if frag and not (frag.isidentifier() and frag == unicodedata.normalize('NFKC', frag)):
+            frag = m[:cut]
+        out.append(frag)
+    return out
+
+
+def gen_fold_program(rng):
+    """same contract as gen_program; every scope that is completed in (module, instance, class,
+    parameters) holds a whole family"""
+    fam = list(rng.choice(FOLD_FAMILIES))
+    rng.shuffle(fam)
+    lines = []
+    cls = rng.choice(['Adresse', 'Klass', 'Thing'])
+    split = rng.randint(0, len(fam))
+    lines.append('class %s:' % cls)
+    lines.append('    land = 1')
+    lines.append('    def __init__(self, ort):')
+    for a in fam[:split] or ['ort']:
+        lines.append('        self.%s = ort' % a)
+    for a in fam[split:]:
+        if rng.random() < 0.5:
+            lines.append('    def %s(self):' % a)
+            lines.append('        return 2')
+        else:
+            lines.append('    %s = %d' % (a, rng.randint(0, 9)))
+    inst = rng.choice(['adresse', 'obj', 'ding'])
+    lines.append('%s = %s(3)' % (inst, cls))
+    mods = [m for m in fam if rng.random() < 0.8]
+    for m in mods:
+        lines.append('%s = %d' % (m, rng.randint(0, 9)))
+    params = [m for m in fam if rng.random() < 0.7]
+    if params:
+        lines.append('def func(%s):' % ', '.join(params))
+        lines.append('    return 1')
+    ndefs = len(lines)
+    probes = []
+    for frag in fold_fragments(rng, fam):
+        lines.append('%s.%s' % (inst, frag))
+        probes.append((len(lines), len(inst) + 1 + len(frag), 'fold-attr', (inst, frag)))
+    if rng.random() < 0.5:
+        lines.append('%s.' % inst)
+        probes.append((len(lines), len(inst) + 1, 'attr', (inst, '')))
+    if mods:
+        for frag in fold_fragments(rng, mods)[:2]:
+            if frag:
+                lines.append(frag)
+                probes.append((len(lines), len(frag), 'fold-global', frag))
+    if params:
+        for frag in fold_fragments(rng, params)[:1]:
+            lines.append('func(%s' % frag)
+            probes.append((len(lines), 5 + len(frag), 'fold-call', frag))
+    src = '\n'.join(lines)
+    return src, probes, '\n'.join(lines[:ndefs]) + '\n'
+
+
 class Capture:
     """records the arguments of completion.filter_names during Script.complete"""
     def __init__(self):
@@ -345,6 +535,29 @@ def is_subseq(frag, s):
     return all(ch in it for ch in frag)
 
 
+FOLDS = (str.lower, str.upper, str.casefold)
+
+
+def caseless_eq(a, b):
+    """`a` and `b` are the same text up to case: equal under one of the case mappings Python has,
+    as whole strings or character by character (the property does not say which one)"""
+    if a == b or any(f(a) == f(b) for f in FOLDS):
+        return True
+    return len(a) == len(b) and all(x == y or any(f(x) == f(y) for f in FOLDS) for x, y in zip(a, b))
+
+
+def caseless_subseq(frag, name):
+    if any(is_subseq(f(frag), f(name)) for f in FOLDS):
+        return True
+    it = iter(name)
+    return all(any(caseless_eq(ch, x) for x in it) for ch in frag)
+
+
+def changes_length(s):
+    """a character of `s` lower-cases to more than one code point (U+0130 is the only one)"""
+    return any(len(ch.lower()) != 1 for ch in s)
+
+
 def oracle_check(ctx, src, line, col, fuzzy, frag, comps, how):
     """the property itself on the API-visible result. comps: list of Completion"""
     case = {'source': src, 'line': line, 'column': col, 'fuzzy': fuzzy}
@@ -363,17 +576,22 @@ def oracle_check(ctx, src, line, col, fuzzy, frag, comps, how):
             # positional-only convention, BaseTreeParamName.get_public_name) although the typed
             # fragment is a prefix of the real spelling
             case = dict(base_case, shape='dunder-parameter-shown-under-public-name')
+        elif changes_length(frag) or changes_length(name):
+            # root cause: filter_names matches on str.lower() of both sides, Completion._complete cuts
+            # name[len(fragment):]; `İ`.lower() has two code points, so a match of the lowered strings
+            # does not mean the first len(fragment) characters of the name are the fragment
+            case = dict(base_case, shape='lowercase-of-U+0130-has-two-code-points')
         if fuzzy:
-            if not is_subseq(frag.lower(), name.lower()):
+            if not caseless_subseq(frag, name):
                 ctx.fail('oracle', 'fuzzy completion is not a supersequence of the fragment', case,
                          observed=obs, how=how)
             if complete is not None:
                 ctx.fail('oracle', 'fuzzy completion has complete != None', case, observed=obs, how=how)
         else:
-            if not name.lower().startswith(frag.lower()):
+            if not caseless_eq(name[:len(frag)], frag):
                 ctx.fail('oracle', 'completion name does not start with the fragment', case,
                          observed=obs, how=how)
-            if complete is None or nws[:len(frag)].lower() != frag.lower() or nws[len(frag):] != complete:
+            if complete is None or not caseless_eq(nws[:len(frag)], frag) or nws[len(frag):] != complete:
                 ctx.fail('oracle', 'complete is not the missing suffix of name_with_symbols', case,
                          observed=obs, how=how)
         if plen != len(frag):
@@ -596,8 +814,10 @@ def stream_e2e(ctx, reqs):
     rng = ctx.subrng('e2e')
     cases = []
     nprog = ctx.size(40, 600)
-    for pi in range(nprog):
-        src, probes, defs_src = gen_program(rng)
+    nfold = ctx.size(14, 200)
+    frng = ctx.subrng('e2e-fold')
+    for pi in range(nprog + nfold):
+        src, probes, defs_src = gen_program(rng) if pi < nprog else gen_fold_program(frng)
         bracket = rng.random() < 0.2
         for (line, col, kind, meta) in probes:
             for fuzzy in ((False, True) if rng.random() < 0.5 else (False,)):
@@ -720,12 +940,23 @@ def compare(ctx, cases, answers):
                     ctx.fail('match', 'helpers.match disagrees with prefix/subsequence semantics',
                              {'string': s, 'like_name': like, 'fuzzy': fuzzy}, expected=truth,
                              observed=impl, how='jedi.api.helpers.match(string, like_name, fuzzy=fuzzy)')
+        elif stream == 'foldmap':
+            ctx.count('foldmap', key, nontrivial=len(key[2]) > 0, bucket=key[1] + ('' if impl['unit'] else '/expanding'),
+                      sample={'method': key[1], 's': key[2], 'result': impl})
+            if ans != impl:
+                ctx.tie_broken('correspondence:foldmap', short({'case': key, 'impl': impl, 'model': ans}))
         else:
             req = key[-1]
             if isinstance(ans, dict):
                 raise common.InfraError('driver error: %r' % ans)
             model = [model_tuple(m) for m in ans]
-            if stream == 'filter':
+            if stream == 'foldsrc':
+                ctx.count('foldsrc', req, nontrivial=len(model) > 0,
+                          bucket='n=%d%s' % (min(len(model), 4), '/fuzzy' if req['fuzzy'] else ''),
+                          sample={'cands': req['cands'], 'like': req['like'], 'fuzzy': req['fuzzy'],
+                                  'result': impl})
+                visible = impl
+            elif stream == 'filter':
                 ctx.count('filter', req, nontrivial=len(model) > 0,
                           bucket='n=%d%s' % (min(len(model), 4), '/fuzzy' if req['fuzzy'] else ''),
                           sample={'cands': req['cands'], 'like': req['like'], 'fuzzy': req['fuzzy'],
@@ -739,13 +970,13 @@ def compare(ctx, cases, answers):
             if model != visible:
                 ctx.tie_broken('correspondence:' + stream,
                                short({'case': key[1], 'impl': visible[:6], 'model': model[:6]}, 1200))
-                if stream == 'filter':
+                if stream in ('filter', 'foldsrc'):
                     # search: evaluate the property predicates directly on the real output
                     like, fuzzy = req['like'], req['fuzzy']
                     seen = set()
                     for t in impl:
                         if t[0] == 'EXC' or not isinstance(t, list):
-                            ctx.fail('filter', 'filter_names raised', req, observed=impl)
+                            ctx.fail(stream, 'filter_names raised', req, observed=impl)
                             break
                         name, complete, nws, plen = t
                         bad = None
@@ -754,7 +985,7 @@ def compare(ctx, cases, answers):
                         seen.add((name, complete))
                         base = name[:-1] if name.endswith('=') else name
                         if req['ci']:
-                            ok = is_subseq(like.lower(), base.lower()) if fuzzy else base.lower().startswith(like.lower())
+                            ok = caseless_subseq(like, base) if fuzzy else caseless_eq(base[:len(like)], like)
                         else:
                             ok = is_subseq(like, base) if fuzzy else base.startswith(like)
                         if not ok:
@@ -764,11 +995,11 @@ def compare(ctx, cases, answers):
                         if fuzzy and complete is not None:
                             bad = 'fuzzy completion has complete != None'
                         if bad:
-                            ctx.fail('filter', bad, req, observed=t,
+                            ctx.fail(stream, bad, req, observed=t,
                                      how='completion.filter_names(None, names, None, like, fuzzy, imported, cached_name=None)')
                     keys = [doc_key(t[0], like) for t in impl if isinstance(t, list) and len(t) == 4]
                     if keys != sorted(keys):
-                        ctx.fail('filter', 'completions not in documented order', req, observed=impl)
+                        ctx.fail(stream, 'completions not in documented order', req, observed=impl)
 
 
 def run(ctx):
@@ -776,6 +1007,8 @@ def run(ctx):
     cases = []
     cases += stream_match(ctx, reqs)
     cases += stream_filter(ctx, reqs)
+    cases += stream_foldsrc(ctx, reqs)
+    cases += stream_foldmap(ctx, reqs)
     cases += stream_e2e(ctx, reqs)
     stream_known(ctx)
     stream_hierarchy(ctx)
@@ -786,7 +1019,8 @@ def run(ctx):
     else:
         ctx.notes.append('model did not build: correspondence skipped, oracle only')
     ctx.obligations['assumptions'] = [
-        "CPython str.lower enters the model as the parameter `lower` (a lookup table sent with each request)",
+        "CPython str.lower / casefold / upper enter the model as parameters (lookup tables sent with each request); "
+        "that str.lower maps every code point except U+0130 to one code point is checked over all code points (stream foldmap), not proved",
         'candidate collection (Completion._complete_python: which names are visible at the cursor) is not '
         'modelled; the model is run on the candidates jedi collected. Attribute completeness is checked by '
         'executing generated programs (stream attrs) - a test, not a theorem.',
